@@ -510,6 +510,51 @@ def default_run(libname):
     return _DEFAULTS[libname]
 
 
+def scope_components(libname):
+    """Names of the namespaces and of the classes / structs (a class template also under its instantiated names) the
+    library declares."""
+    ns, cls = set(), set()
+
+    def walk(decls):
+        for d in decls or []:
+            text = d.get("decl", "") if isinstance(d, dict) else ""
+            m = re.match(r"^\s*namespace\s+(\w+)", text)
+            if m:
+                ns.add(m.group(1))
+            m = re.match(r"^\s*(?:template\s*<[^>]*>\s*)?(?:class|struct)\s+(\w+)", text)
+            if m:
+                cls.add(m.group(1))
+                for inst in d.get("cxx_template", []) or []:
+                    args = re.findall(r"\w+", inst.get("instantiation", ""))
+                    cls.add(m.group(1) + "_" + "_".join(args))
+            if isinstance(d, dict):
+                walk(d.get("declarations"))
+    walk(pipeline.load_yaml(LIBS[libname]).get("declarations"))
+    return ns, cls
+
+
+def name_shape_verdict(libname):
+    """Block names are paths: `namespace.<N>.` and `class.<C>.` components for the scopes the block lies in, then the
+    block's own name (docs/splicers: e.g. class.Circle.method.area, namespace.shapes.function.count).  A user file written
+    with those names must find its blocks, so in every generated file each `namespace` / `class` keyword is followed by
+    a declared name of that kind and a declared scope name does not occur without its keyword."""
+    ns, cls = scope_components(libname)
+    for fname, (g, blocks) in sorted(default_run(libname).items()):
+        for name in sorted(blocks):
+            parts = name.split(".")
+            i = 0
+            while i + 1 < len(parts) and parts[i] in ("namespace", "class"):
+                pool = ns if parts[i] == "namespace" else cls
+                if parts[i + 1] not in pool and not (parts[i] == "namespace" and all(q in ns for q in parts[i + 1].split("::"))):
+                    return "%s: block %s: %r follows the keyword %r but the library declares no such %s" % (
+                        os.path.basename(fname), name, parts[i + 1], parts[i], parts[i])
+                i += 2
+            if i < len(parts) - 1 and parts[i] in (ns | cls):
+                return "%s: block %s: the scope name %r stands in the path without its namespace / class keyword" % (
+                    os.path.basename(fname), name, parts[i])
+    return None
+
+
 def nest(names_to_lines):
     tree = {}
     for dotted, lines in names_to_lines.items():
@@ -1095,6 +1140,8 @@ def make_pipeline(**kw):
 # ---------------------------------------------------------------------------- concrete replay
 def confirm(w):
     """Re-run on plain strings: no proxies.  Returns verdict text or None."""
+    if w.get("level") == "block-names":
+        return name_shape_verdict(w["library"]), None
     lines = w["user_lines"]
     res = {}
 
@@ -1314,6 +1361,11 @@ def main():
             shared = template_splicer_collision()
             if shared:
                 rep.known_finding("%s (e.g. %s; %d names)" % (k["what_fails"], shared[0], len(shared)))
+    for libname in sorted(LIBS):
+        shape = name_shape_verdict(libname)
+        if shape:
+            path = checklib.write_replay(PID, "names-" + libname, {"level": "block-names", "library": libname, "user_lines": [], "what": shape})
+            rep.violation(path, "%s  library=%s level=block-names" % (shape, libname))
     seen = set()
     confirmed = 0
     for i, v in enumerate(total.violations):
